@@ -18,6 +18,8 @@ import vlib
 from vlib import Report, prelude, build_driver, run_sharded, log
 
 PID = "C19"
+WRAP_EXT = ["-Wl,--wrap=carquet_arena_alloc,--wrap=carquet_arena_alloc_aligned,--wrap=carquet_arena_calloc,"
+            "--wrap=carquet_arena_strdup,--wrap=carquet_arena_strndup,--wrap=carquet_arena_memdup", "-rdynamic"]
 WRAP = ["-Wl,--wrap=malloc,--wrap=calloc,--wrap=realloc,--wrap=strdup,--wrap=carquet_arena_alloc,--wrap=carquet_arena_alloc_aligned,"
         "--wrap=carquet_arena_calloc,--wrap=carquet_arena_strdup,--wrap=carquet_arena_strndup,--wrap=carquet_arena_memdup", "-rdynamic"]
 CODECS = {0: "uncompressed", 1: "snappy", 2: "gzip", 5: "lz4", 6: "zstd"}
@@ -30,7 +32,21 @@ def tmpdir():
     return d
 
 
-def san_env():
+def san_env(ext=False):
+    e = _san_env()
+    if ext:
+        # whole-process flavour: allocations of the dynamic loader (dlopen of libgcc_s for backtrace) now reach
+        # ASan through the driver's own malloc and are no longer recognised as loader-internal
+        supp = vlib.BUILD / "alloc" / "lsan_ext.supp"
+        supp.parent.mkdir(parents=True, exist_ok=True)
+        txt = "leak:_dl_map_object_deps\nleak:dl_open_worker\nleak:_dl_new_object\nleak:_dl_check_map_versions\nleak:__libc_dlopen_mode\n"
+        if not supp.exists() or supp.read_text() != txt:
+            supp.write_text(txt)
+        e["LSAN_OPTIONS"] = f"suppressions={supp}:print_suppressions=0"
+    return e
+
+
+def _san_env():
     return {"ASAN_OPTIONS": "detect_leaks=1:abort_on_error=0:exitcode=99:allocator_may_return_null=1:"
                             "max_malloc_fill_size=4194304:malloc_fill_byte=190:fast_unwind_on_malloc=1",
             "UBSAN_OPTIONS": "print_stacktrace=1:halt_on_error=1:exitcode=98",
@@ -114,7 +130,10 @@ class Sites:
         """'a/b/c' -> list of (function, file:line) innermost first, library and driver frames only"""
         out = []
         for o in chain_txt.split("/"):
-            if len(o) > 8:      # outside the executable (sanitizer runtime, libc)
+            if o == "!gomp":
+                continue
+            if len(o) > 8:      # outside the executable (sanitizer runtime, libc, zlib, libzstd)
+                out.append(("<outside>", ""))
                 continue
             for fn, loc in self.cache.get(o, []):
                 out.append((fn, loc))
@@ -125,7 +144,14 @@ class Sites:
         """first frame of the library that is not an allocator helper: (file, function, line); plus
         the helper the request went through (malloc, arena, buffer, thrift encoder)"""
         via = "malloc"
+        seen_wrapper = False
         for fn, loc in frames:
+            if fn in ("__wrap_malloc", "__wrap_calloc", "__wrap_realloc", "__wrap_strdup", "malloc", "calloc", "realloc"):
+                seen_wrapper = True
+            if fn == "<outside>":
+                if seen_wrapper and via == "malloc":
+                    via = "external-library"
+                continue
             if fn.startswith("__wrap_carquet_arena"):
                 via = "arena"
             if "/src/" not in loc:
@@ -149,17 +175,28 @@ def corpus_lines():
     return out
 
 
-def run_all(rep, tier, rng, drv):
-    scs = scenarios(tier)
-    growth = growth_scenarios(tier)
+def ext_scenarios(tier):
+    """scenarios for the second driver flavour, in which the requests made inside zlib / libzstd / stdio fail too"""
+    d = tmpdir()
+    sc = []
+    for codec in ((2, 6) if tier == "quick" else CODECS):
+        sc.append(f"write {d} {codec} iLDfB 1 2 12 abort")
+        sc.append(f"read {d} {codec} iLDfB 1 2 12 fread")
+        sc.append(f"batch {d} {codec} iLDfB 1 2 12 mmap")
+    return sc
+
+
+def run_all(rep, tier, rng, drv, ext=False):
+    scs = scenarios(tier) if not ext else ext_scenarios(tier)
+    growth = growth_scenarios(tier) if not ext else []
     scs = scs + growth
     # corpus first: (scenario, k-range) witnesses of earlier findings; their scenarios join the plan
-    corpus = corpus_lines()
+    corpus = corpus_lines() if not ext else []
     for c in corpus:
         s = " ".join(c.split()[1:-2])
         if s not in scs:
             scs.append(s)
-    cout, probs = run_sharded(drv, ["count " + s for s in scs], env=san_env(), timeout=1200)
+    cout, probs = run_sharded(drv, ["count " + s for s in scs], env=san_env(ext), timeout=1200)
     for pr in probs:
         rep.tie_broken(f"counting run died (rc={pr[1]}): {pr[2][-400:]}", pr[3])
     sites = Sites(drv)
@@ -172,12 +209,14 @@ def run_all(rep, tier, rng, drv):
             continue
         K = int(kv["K"])
         chains = o.split("sites=", 1)[1].split(",") if K else []
-        sites.resolve({a for c in chains for a in c.split("/") if len(a) <= 8})
+        sites.resolve({a for c in chains for a in c.split("/") if len(a) <= 8 and a != "!gomp"})
         base[s] = (kv, chains)
         ks = list(range(1, K + 1))
+        # requests made by the OpenMP runtime itself are not failed: libgomp aborts the process by design
+        ks = [k for k in ks if not chains[k - 1].endswith("!gomp")]
         if s in growth:
             ks = [k for k, c in enumerate(chains, 1)
-                  if any(fn == "arena_new_block" for fn, _ in sites.chain(c)) and
+                  if not c.endswith("!gomp") and any(fn == "arena_new_block" for fn, _ in sites.chain(c)) and
                   not any(fn == "carquet_arena_init_size" for fn, _ in sites.chain(c))]
         elif K > 700 and tier == "quick":
             # big scenario: every distinct call site at its first, a middle and its last occurrence, plus a random sample
@@ -212,7 +251,7 @@ def run_all(rep, tier, rng, drv):
             i = j + 1
     order = list(range(len(lines)))
     rng.shuffle(order)      # spread the long scenarios over the shards
-    out_sh, probs = run_sharded(drv, [lines[i] for i in order], env=san_env(), timeout=2400)
+    out_sh, probs = run_sharded(drv, [lines[i] for i in order], env=san_env(ext), timeout=2400)
     for pr in probs:
         rep.tie_broken(f"driver died (rc={pr[1]}): {pr[2][-400:]}", pr[3])
     out = [None] * len(lines)
@@ -354,7 +393,7 @@ def run(tier):
     prelude(rep, PID)
     rep.cov["trusted_base"] = vlib.TRUSTED_BASE_COMMON + [
         "PARTIAL: that the C code frees what the model says it frees, and never uses freed memory, is observed by ASan/LeakSanitizer in the k-th-request-fails runs, not proved; the mapping request k <-> call site is observed (backtrace + addr2line), not derived",
-        "GNU ld --wrap=malloc,calloc,realloc,strdup (requests of libcarquet.a objects only; zlib/libzstd/stdio internal requests are not failed), fork(), LeakSanitizer's recoverable leak check in the child",
+        "GNU ld --wrap=malloc,calloc,realloc,strdup,carquet_arena_* (requests of libcarquet.a objects); second driver flavour with malloc/calloc/realloc defined in the executable (requests inside zlib/libzstd/stdio; libgomp's own requests are never failed: it aborts by design); fork(); LeakSanitizer's recoverable leak check in the child",
         "tools/gen.d/alloc_sites.py: a regular-expression reading of the call sites (is the result tested before use?)",
     ]
     rep.cov["rule"] = ("for each scenario (schema build x3 sizes; write of a 7-column multi-type nullable table x 5 codecs x {abort, close after the "
@@ -373,6 +412,15 @@ def run(tier):
     scs, base, sites, lines, owner, out = run_all(rep, tier, rng, drv)
     tie, seen = make_site_tie(rep, tab)
     per_site, nrec = evaluate(rep, scs, base, sites, lines, owner, out, tie)
+    try:
+        drv_ext = build_driver("h_alloc_ext", extra=WRAP_EXT)
+        e_scs, e_base, e_sites, e_lines, e_owner, e_out = run_all(rep, tier, rng, drv_ext, ext=True)
+        e_per_site, e_nrec = evaluate(rep, e_scs, e_base, e_sites, e_lines, e_owner, e_out, tie)
+        rep.cov["external_requests"] = {"scenarios": len(e_scs), "requests_failed": e_nrec,
+                                        "K_per_scenario": {short(s): int(e_base[s][0]["K"]) for s in e_base},
+                                        "per_site": {k: v for k, v in sorted(e_per_site.items())}}
+    except vlib.BuildError as e:
+        rep.tie_broken("second driver flavour (whole-process interposition) does not build: " + str(e)[:500])
     rep.cov["site_table"]["functions_observed"] = len(seen)
     rep.cov["site_table"]["functions_observed_without_row"] = sorted(f"{f}:{fn}" for (f, fn), st in seen.items() if st["rows"] == 0)
     rep.cov["site_table"]["flagged_but_never_observed_bad"] = sorted(f"{f}:{fn}" for (f, fn), st in seen.items() if st["bad_rows"] and not st["bad_obs"])
